@@ -223,14 +223,15 @@ class BacktrackSolver(Solver):
                 self.stacks_top,
                 self.triggered_propagators,
             )
-            update_domain_fct(
+            if not update_domain_fct(
                 self.shr_domains_stack,
                 self.stacks_top,
                 self.problem.dom_indices_arr,
                 self.problem.dom_offsets_arr,
                 variable_idx,
                 best_solution[variable_idx],
-            )
+            ):
+                break  # no better value is left in the domain
         return best_solution
 
     def solve(self) -> Iterator[NDArray]:
@@ -358,14 +359,15 @@ class BacktrackSolver(Solver):
                 self.stacks_top,
                 self.triggered_propagators,
             )
-            update_domain_fct(
+            if not update_domain_fct(
                 self.shr_domains_stack,
                 self.stacks_top,
                 self.problem.dom_indices_arr,
                 self.problem.dom_offsets_arr,
                 variable_idx,
                 solution[variable_idx],
-            )
+            ):
+                break  # no better value is left in the domain
         solution_queue.put((processor_idx, None, self.statistics))
 
     def solve_and_queue(self, processor_idx: int, solution_queue: Queue) -> None:
